@@ -491,8 +491,13 @@ class BasinProxyFeature(np.lib.mixins.NDArrayOperatorsMixin):
         self.is_scalar = bool(len(self.feat_obj.shape) == 1)
 
     def __array__(self, dtype=None, copy=copy_if_needed, *args, **kwargs):
-        if self._cache is None and self.is_scalar:
-            self._cache = self.feat_obj[:][self.basinmap]
+        if self.is_scalar:
+            if self._cache is None:
+                self._cache = self.feat_obj[:][self.basinmap]
+                # The cached array (or views of it) is handed out to the
+                # user. Make sure it cannot be modified.
+                self._cache.setflags(write=False)
+            return np.array(self._cache, dtype=dtype, copy=copy)
         else:
             # This is dangerous territory in terms of memory usage
             out_arr = np.empty((len(self.basinmap),) + self.feat_obj.shape[1:],
@@ -501,7 +506,6 @@ class BasinProxyFeature(np.lib.mixins.NDArrayOperatorsMixin):
             for ii, idx in enumerate(self.basinmap):
                 out_arr[ii] = self.feat_obj[idx]
             return out_arr
-        return np.array(self._cache, copy=copy)
 
     def __getattr__(self, item):
         if item in [
